@@ -61,3 +61,31 @@ Definition chk_stepd w aw ad (xs : list (bool * float)) (exp : list exp_row) : b
   let p := stepd_p w aw ad in chk_trace (stepd_extra p) (init (STEPD p) stepd_e0) xs exp.
 Definition show_stepd w aw ad (xs : list (bool * float)) (exp : list exp_row) :=
   let p := stepd_p w aw ad in first_bad (stepd_extra p) (init (STEPD p) stepd_e0) xs exp 0.
+
+(** ---------------- Page-Hinkley / CUSUM ---------------- *)
+From MV Require Import Pairwise ChangeDet.
+
+Definition b2f (b : bool) : float := if b then 1%float else 0%float.
+Definition ph_p (delta thr : float) (burn : Z) (neg : bool) : @ph_params NumFloat :=
+  @Build_ph_params NumFloat delta thr burn (if neg then DirNeg else DirPos).
+Definition ph_extra (p : @ph_params NumFloat) (s : st (PH p)) : list float :=
+  match p_rows (epoch s) with
+  | r :: _ => [r_sum r; r_diff r; r_theta r; r_max r; r_min r; r_mean r; b2f (r_check r); r_x r;
+               float_ofZ (Z.of_nat (length (p_rows (epoch s))))]
+  | [] => []
+  end.
+Definition chk_ph delta thr burn neg (xs : list float) (exp : list exp_row) : bool :=
+  let p := ph_p delta thr burn neg in chk_trace (ph_extra p) (init (PH p) ph_e0) xs exp.
+Definition show_ph delta thr burn neg (xs : list float) (exp : list exp_row) :=
+  let p := ph_p delta thr burn neg in first_bad (ph_extra p) (init (PH p) ph_e0) xs exp 0.
+
+Definition dir_of (d : Z) : direction := if (d =? 1)%Z then DirPos else if (d =? 2)%Z then DirNeg else DirBoth.
+Definition cusum_p (burn : Z) (delta thr : float) (d : Z) : @cusum_params NumFloat :=
+  @Build_cusum_params NumFloat burn delta thr (dir_of d).
+Definition onan (o : option float) : float := match o with Some x => x | None => nan end.
+Definition cusum_extra (p : @cusum_params NumFloat) (s : st (CUSUM p)) : list float :=
+  [c_up (epoch s); c_lo (epoch s); onan (c_target (epoch s)); onan (c_sd (epoch s))].
+Definition chk_cusum burn delta thr d (tg sd : option float) (xs : list float) (exp : list exp_row) : bool :=
+  let p := cusum_p burn delta thr d in chk_trace (cusum_extra p) (init (CUSUM p) (@cusum_e0 NumFloat tg sd)) xs exp.
+Definition show_cusum burn delta thr d (tg sd : option float) (xs : list float) (exp : list exp_row) :=
+  let p := cusum_p burn delta thr d in first_bad (cusum_extra p) (init (CUSUM p) (@cusum_e0 NumFloat tg sd)) xs exp 0.
